@@ -539,9 +539,9 @@ unit({
         {'file': CF, 'qual': 'ClmFile::ClmHeader::CheckUnknown', 'cls': 'ClmHeader', 'cname': 'ClmHeader_CheckUnknown'},
         {'file': CF, 'qual': 'ClmFile::ClmHeader::VerifyFileVersion', 'cls': 'ClmHeader', 'cname': 'ClmHeader_VerifyFileVersion'},
         {'file': CF, 'qual': 'ClmFile::ClmHeader::VerifyUnknown', 'cls': 'ClmHeader', 'cname': 'ClmHeader_VerifyUnknown'},
-        _cf('FindChunk'),
+        _cf('FindChunk', calls={'Read': {1: T('Rd_ReadHdr', args=['obj'])}}),      # the 8-byte chunk header read: K_R with the byte clause instantiated at indices 0..7
         _cf('ReadAllWaveHeaders', typemap={'std::vector<std::unique_ptr<Stream::FileReader>>': 'vec_Fr'},
-            calls={'Read': {1: T('Fr_Read', args=['obj'])}, 'Length': N('Fr_Length'), 'FindChunk': T('ClmFile_FindChunk_F', recv='none', args=[None, 'ref'])},
+            calls={'Read': {1: T('Fr_Read', args=['obj']), 2: T('Fr_Read')}, 'Length': N('Fr_Length'), 'FindChunk': T('ClmFile_FindChunk_F', recv='none', args=[None, 'ref'])},
             views=[(r'\(\*filesToPackReaders\)', 'vecptr'), (r'\(\*waveFormats\)', 'vec'), (r'\(\*indexEntries\)', 'vec')]),
         _cf('CompareWaveFormats'),
         _cf('PrepareIndex'),
@@ -625,6 +625,44 @@ unit({
     ],
 })
 
+# --------------------------------------------------------------------------- U-CLMR (ClmFile: reading side)
+def _cr(name, **kw):
+    d = {'file': CF, 'qual': 'ClmFile::' + name, 'cls': 'ClmFile', 'cname': 'ClmFile_' + name}
+    d.update(kw); return d
+unit({
+    'name': 'clmr',
+    'includes': ['kf.h', 'wr.h', 'volw.h'],
+    'typemap': dict(CLM_TM, **{'Stream::FileReader': 'Fr', 'ClmFile': 'ClmFile', 'std::unique_ptr<Stream::BidirectionalReader>': 'SliceT', 'std::size_t': 'size_t', 'Stream::FileWriter': 'FileWriterT', 'FileWriter': 'FileWriterT'}),
+    'structs': [STR_VIEW, TAG_T, ARR('arr_char_32', 'char', 32), ARR('arr_char_6', 'char', 6), ARR('arr_char_8', 'char', 8),
+                (WFH, 'WaveFormatEx'), (WFH, 'RiffHeader'), (WFH, 'FormatChunk'), (WFH, 'ChunkHeader'), (WFH, 'WaveHeader'),
+                (CH, 'ClmHeader'), (CH, 'IndexEntry', {'cname': 'ClmIndexEntry'}), VIEW('vec_ClmIndexEntry', 'ClmIndexEntry'),
+                (CH, 'ClmFile', {'bases': [('src/Archive/ArchiveFile.h', 'ArchiveFile')]})],
+    'globals': [{'file': CF, 'qual': 'standardFileVersion', 'ctype': 'arr_char_32', 'cname': 'standardFileVersion'},
+                {'file': CF, 'qual': 'standardUnknown', 'ctype': 'arr_char_6', 'cname': 'standardUnknown'}],
+    'scoped': {'ClmHeader': 'ClmHeader', 'IndexEntry': 'ClmIndexEntry', 'Stream': '', 'WaveHeader': ''},
+    'ctor_calls': {'FileWriterT': {'fn': 'FileWriter_ctor', 'throws': True}},
+    'calls': {
+        'VerifyIndexInBounds': T('ClmFile_VerifyIndexInBounds'),
+        'Read': {1: [(r'self->indexEntries', T('Fr_Read', args=['vec'])), (r'.*', T('Fr_Read', args=['obj']))]},
+        'Slice': {2: T('Fr_Slice2')},
+        'VerifyFileVersion': T('ClmHeader_VerifyFileVersion'), 'VerifyUnknown': T('ClmHeader_VerifyUnknown'),
+        'CheckFileVersion': N('ClmHeader_CheckFileVersion'), 'CheckUnknown': N('ClmHeader_CheckUnknown'),
+        'GetFilename': N('ClmIndexEntry_GetFilename'),
+        'Create': N('WaveHeader_Create', recv='none', args=['ref']),
+        'Write': {1: [(r'header', T('Wr_Write', args=['obj'])), (r'slice', T('Wr_WriteSliceT', args=['ref']))]},
+        'vec_ClmIndexEntry_assign_n': T('vec_ClmIndexEntry_assign_n', recv='none'),
+    },
+    # R21: the one statement with no token rule -- assignment of a freshly constructed vector of n value-initialised records
+    'text_subst': [(r'self->indexEntries\s*=\s*vec_ClmIndexEntry\s*\(([^;]*)\)\s*;', r'vec_ClmIndexEntry_assign_n(&self->indexEntries, \1); if (op2_exc) return;')],
+    'functions': [
+        {'file': CF, 'qual': 'ClmFile::ClmHeader::CheckFileVersion', 'cls': 'ClmHeader', 'cname': 'ClmHeader_CheckFileVersion'},
+        {'file': CF, 'qual': 'ClmFile::ClmHeader::CheckUnknown', 'cls': 'ClmHeader', 'cname': 'ClmHeader_CheckUnknown'},
+        {'file': CF, 'qual': 'ClmFile::ClmHeader::VerifyFileVersion', 'cls': 'ClmHeader', 'cname': 'ClmHeader_VerifyFileVersion'},
+        {'file': CF, 'qual': 'ClmFile::ClmHeader::VerifyUnknown', 'cls': 'ClmHeader', 'cname': 'ClmHeader_VerifyUnknown'},
+        _cr('ReadHeader'), _cr('GetName'), _cr('GetSize'), _cr('OpenStream', autos={'indexEntry': 'ClmIndexEntry'}), _cr('ExtractFile', autos={'indexEntry': 'ClmIndexEntry'}),
+    ],
+})
+
 # --------------------------------------------------------------------------- U-MAPR / U-MAPW (map reader and writer over the stream contracts)
 MR_ = 'src/Map/MapReader.cpp'; MW_ = 'src/Map/MapWriter.cpp'
 def _mr(name, **kw):
@@ -636,9 +674,12 @@ def _mw(name, **kw):
 unit({
     'name': 'mapio',
     'includes': ['kr.h', 'wr.h'],
-    'typemap': dict(MAP_TYPEMAP, **{'Stream::Reader': 'Rd', 'Stream::BidirectionalReader': 'Rd', 'Stream::Writer': 'Wr', 'std::array<char,10>': 'arr_char_10', 'std::size_t': 'size_t'}),
+    'typemap': dict(MAP_TYPEMAP, **{'Stream::Reader': 'Rd', 'Stream::BidirectionalReader': 'Rd', 'Stream::Writer': 'Wr', 'std::array<char,10>': 'arr_char_10', 'std::size_t': 'size_t',
+                                    'SavedGameUnits': 'SavedGameUnits', 'ObjectType1': 'ObjectType1', 'UnitRecord': 'UnitRecord', 'std::vector<ObjectType1>': 'vec_ObjectType1',
+                                    'std::array<uint8_t,512>': 'arr_u8_512', 'std::array<uint8_t,DefaultSizeOfUnit>': 'arr_u8_120', 'std::array<UnitRecord,2047>': 'arr_UnitRecord_2047', 'std::array<uint32_t,2048>': 'arr_u32_2048'}),
     'enums': [('src/Map/CellType.h', 'CellType')],
-    'structs': [ARR('arr_char_10', 'char', 10)] + MAP_STRUCTS,
+    'structs': [ARR('arr_char_10', 'char', 10)] + MAP_STRUCTS + [ARR('arr_u8_512', 'uint8_t', 512), ARR('arr_u8_120', 'uint8_t', 120), ('src/Map/SavedGameUnits.h', 'ObjectType1'), ('src/Map/SavedGameUnits.h', 'UnitRecord'),
+                VIEW('vec_ObjectType1', 'ObjectType1'), ARR('arr_UnitRecord_2047', 'UnitRecord', 2047), ARR('arr_u32_2048', 'uint32_t', 2048), ('src/Map/SavedGameUnits.h', 'SavedGameUnits')],
     'globals': [{'file': MR_, 'qual': 'tilesetHeader', 'ctype': 'arr_char_10', 'cname': 'tilesetHeader'}],
     'scoped': {'CellType': 'CellType', 'MapHeader': 'MapHeader'},
     'views': MAP_VIEWS + [(r'map\.tiles', 'vec'), (r'map\.tileMappings', 'vec'), (r'map\.terrainTypes', 'vec'), (r'tileGroup\.mappingIndices', 'vec'), (r'tileGroup\.name', 'str'), (r'\(\*tilesetSources\)', 'vec')],
@@ -646,8 +687,12 @@ unit({
     'calls': {
         'CheckMinVersionTag': T('Map_CheckMinVersionTag', recv='none'),
         'WidthInTiles': N('MapHeader_WidthInTiles'), 'TileCount': N('MapHeader_TileCount'),
-        'resize': [(r'.*tiles', T('vec_Tile_resize')), (r'.*mappingIndices', T('vec_u32_resize'))],
-        'Read': {1: [(r'map\.tiles|tileGroup\.mappingIndices', T('Rd_Read', args=['vec'])), (r'.*', T('Rd_Read', args=['obj']))],
+        'resize': [(r'.*tiles', T('vec_Tile_resize')), (r'.*mappingIndices', T('vec_u32_resize')), (r'.*objects1', T('vec_ObjectType1_resize')), (r'.*objects2', T('vec_u32_resize'))],
+        'CheckSizeOfUnit': T('SavedGameUnits_CheckSizeOfUnit'),
+        'Read': {1: [(r'map\.tiles|tileGroup\.mappingIndices|savedGameUnits\.objects[12]', T('Rd_Read', args=['vec'])),
+                     (r'savedGameUnits\.(unitCount|lastUsedUnitIndex|nextFreeUnitSlotIndex|firstFreeUnitSlotIndex|sizeOfUnit|objectCount1|objectCount2|nextUnitIndex|prevUnitIndex)', T('Rd_ReadU32T', args=['obj'])),      # K_R at byte indices 0..3, typed target
+                     (r'savedGameUnits\.units', T('Rd_ReadUnits', args=['obj'])), (r'savedGameUnits\.freeUnits', T('Rd_ReadFreeUnits', args=['obj'])),      # typed framing projection of K_R (245 KB / 8 KB records)
+                     (r'.*', T('Rd_Read', args=['obj']))],
                  ('uint32_t', 1): [(r'map\.tileMappings', T('Reader_ReadSized_u32_vec_TileMapping', args=['ref'])), (r'map\.terrainTypes', T('Reader_ReadSized_u32_vec_TerrainType', args=['ref'])),
                                    (r'tileGroup\.name', T('Reader_ReadSized_u32_str', args=['ref']))]},
         'ReadTilesetSources': T('Map_ReadTilesetSources', recv='none', args=['ref', 'ref', None]),
@@ -659,6 +704,8 @@ unit({
     },
     'functions': [
         _mr('SkipSaveGameHeader'), _mr('ReadMapBeginning'), _mr('ReadTilesetHeader'), _mr('ReadVersionTag'), _mr('ReadTileGroup'),
+        {'file': 'src/Map/SavedGameUnits.cpp', 'qual': 'SavedGameUnits::CheckSizeOfUnit', 'cls': 'SavedGameUnits', 'cname': 'SavedGameUnits_CheckSizeOfUnit'},
+        _mr('ReadSavedGameUnits', views=[(r'savedGameUnits\.objects[12]', 'vec')]),
         _mw('CreateHeader'), _mw('GetWidthInTilesLog2'), _mw('WriteContainerSize', static=True),
     ],
 })
